@@ -302,6 +302,13 @@ fn core_formulas() -> Vec<F> {
     }
     v.push(F::Call("IF", false, vec![F::Bin(9, false, Box::new(F::L(red[0].clone())), Box::new(F::L(red[8].clone()))), F::L(red[3].clone()), F::L(red[6].clone())]));
     v.push(F::Isect(Box::new(F::L(red[3].clone())), Box::new(F::L(red[4].clone()))));
+    // intersections / unions with a sheet-qualified reference on either side: after an edit that deletes its target the
+    // formula contains Sheet!#REF! next to a significant blank or a comma, and must survive the NEXT edit
+    for q in [6usize, 7] {
+        v.push(F::Isect(Box::new(F::L(red[0].clone())), Box::new(F::L(red[q].clone()))));
+        v.push(F::Isect(Box::new(F::L(red[q].clone())), Box::new(F::L(red[2].clone()))));
+        v.push(F::Union(Box::new(F::L(red[1].clone())), Box::new(F::L(red[q].clone()))));
+    }
     v.push(F::Union(Box::new(F::L(red[1].clone())), Box::new(F::L(red[5].clone()))));
     v.push(F::Un(Un::Neg, Box::new(F::Un(Un::Paren, Box::new(F::Bin(2, true, Box::new(F::L(red[2].clone())), Box::new(F::L(red[6].clone()))))))));
     v
